@@ -46,6 +46,7 @@ type aggRec struct {
 	Tot [4]uint64
 	// deltas: packet, reverse packet
 	Delta    [2]uint64
+	HTTP     string // httpVals text (not part of any checked clause)
 	TCPState string
 	Corr     map[string]string // correlate fields, "" / "0" = empty
 	// Layout: the order in which the exporter that sent this record lists the elements (records are
